@@ -91,6 +91,12 @@ PROPS = {
         "shards": {"quick": 12, "thorough": 16}, "timeout": {"quick": 600, "thorough": 12000},
         "floors": {"quick": {"qos_entries_checked": 5000, "modifications": 500}, "thorough": {"qos_entries_checked": 300000}},
     },
+    "C05": {
+        "test": "TestVerif_C05", "level": "exploration",
+        "rule": "every ending mode {Session Deletion, Association Release, read timeout, heartbeat failure, Session Report Response 'context not found'} x every prefix class {plain, establishment rejected after F-TEID/UE-address allocation (invalid FAR, malformed QER), modification rejected half-way, modification then end, injected P4Runtime write failure at a random write, two sessions} x both datapaths: datapath tables empty w.r.t. the dead sessions and allocator occupancy (UE pool, TEIDs, P4 counter/meter/tunnel-peer/application pools and maps, session store, pfcp_sessions gauge) back to the pre-session values; plus pool wraps: more attach/detach cycles than the smallest pool of each kind has elements (UE pool /29 x 40, 300 gNBs, 300 application filters, 600 sessions for 1024 counters, 400 three-QER sessions for 1023 meter cells, by deletion and by release); distinct = <datapath, ending, prefix> + wraps",
+        "shards": {"quick": 16, "thorough": 16}, "timeout": {"quick": 800, "thorough": 14000},
+        "floors": {"quick": {"occupancy_comparisons": 40, "attach_detach_cycles": 1500}, "thorough": {"occupancy_comparisons": 700}},
+    },
     "C10": {
         "test": "TestVerif_C10", "level": "exploration",
         "rule": "scenario = {0..n associations (some >100)} x {0-3 sessions} x trigger per association {release, silence->read timeout(+heartbeat failure), unanswered heartbeats, live} x requests in flight x datapath reply delay x PFCPIface.Stop() at a drawn offset (+-3.5 ms around the coinciding triggers), fresh agent per scenario, plus a 'refresh' family (association ends without Stop, same address:port associates afresh, bystander association checked); distinct = distinct interleaving signatures (datapath, heartbeat on/off, delay, stop offset in ms, multiset of per-association <trigger, order relative to Stop, release answered?, sessions>)",
